@@ -1217,12 +1217,16 @@ impl Dataset {
         write_config: &ManifestWriteConfig,
         commit_config: &CommitConfig,
     ) -> Result<()> {
+        // A dataset keeps using stable row ids even while it has no fragments that
+        // would show it (e.g. restoring or reconfiguring an empty version).
+        let mut write_config = write_config.clone();
+        write_config.use_stable_row_ids |= self.manifest.uses_stable_row_ids();
         let (manifest, manifest_location) = commit_transaction(
             self,
             self.object_store(),
             self.commit_handler.as_ref(),
             &transaction,
-            write_config,
+            &write_config,
             commit_config,
             self.manifest_location.naming_scheme,
             None,
@@ -2527,7 +2531,7 @@ impl DatasetTakeRows for Dataset {
     }
 }
 
-#[derive(Debug)]
+#[derive(Debug, Clone)]
 pub(crate) struct ManifestWriteConfig {
     auto_set_feature_flags: bool,              // default true
     timestamp: Option<SystemTime>,             // default None
